@@ -849,6 +849,82 @@ def corpus(ek):
     return out
 
 
+def std_custom_corpus(ek):
+    """repeated and message-typed STANDARD options next to custom options on one element, in every order (the two passes of
+    interpretOptions - standard options first, custom options second - both write the same options message)"""
+    ED = lambda e, v: LM(("edition", ("ident", e)), ("value", ("str", [ord(c) for c in v])))
+    DE = lambda n, nm: LM(("number", I(n)), ("full_name", ("str", [ord(c) for c in nm])), ("type", ("str", [ord(c) for c in "int32"])))
+    reps = {"field": [(X("targets"), ("ident", "TARGET_TYPE_FIELD")), (X("targets"), ("ident", "TARGET_TYPE_MESSAGE")),
+                      (X("edition_defaults"), ED("EDITION_2023", "a")), (X("edition_defaults"), ED("EDITION_PROTO2", "b")),
+                      (X("feature_support"), LM(("deprecation_warning", ("str", [120])), ("edition_introduced", ("ident", "EDITION_2023")))),
+                      (X("lazy"), ("ident", "true"))],
+            "extrange": [(X("declaration"), DE(100, ".a.b")), (X("declaration"), DE(101, ".a.c")),
+                         (X("declaration"), LM(("number", I(102)), ("reserved", ("ident", "true")))),
+                         (X("verification"), ("ident", "DECLARATION"))],
+            "enumval": [(X("feature_support", "deprecation_warning"), ("str", [120])),
+                        (X("feature_support", "edition_removed"), ("ident", "EDITION_2024")), (X("deprecated"), ("ident", "true"))],
+            "file": [(X("optimize_for"), ("ident", "SPEED")), (X("java_package"), ("str", [97]))],
+            "message": [(X("deprecated"), ("ident", "true")), (X("no_standard_descriptor_accessor"), ("ident", "false"))],
+            "method": [(X("idempotency_level"), ("ident", "IDEMPOTENT")), (X("deprecated"), ("ident", "true"))],
+            "enum": [(X("deprecated"), ("ident", "true"))], "service": [(X("deprecated"), ("ident", "true"))], "oneof": []}.get(ek, [])
+    c1, c2, c3 = (X("(x_int32)"), I(5)), (X("(xr)"), I(7)), (X("(xm)", "f_int64"), I(1))
+    bad = (X("(x_int32)"), ("str", [120]))
+    out = []
+    if reps:
+        out += [reps + [c1], [c1] + reps, reps[:1] + [c1] + reps[1:], [c2] + reps[:2] + [c2, c3], reps[:2] + [c1, c2, c2],
+                # a custom option that fails: only the lenient runs go on
+                reps + [bad], [bad] + reps + [c1], reps[:2] + [bad, c1], [c1, bad] + reps[:3],
+                # a standard option that fails (the same singular option twice / no such field) between the repeated ones
+                reps[:2] + [(X("nosuch"), I(1))] + reps[2:] + [c1]]
+        for i in range(len(reps)):
+            out.append([reps[i], c1])
+            out.append([c3, reps[i], reps[i]])
+    return out
+
+
+def plain(v):
+    """outside a message literal a bool takes only true / false: keeps the accepted share of a stratum high"""
+    if v[0] == "ident" and v[1] in ("t", "True", "TRUE"):
+        return ("ident", "true")
+    if v[0] == "ident" and v[1] in ("f", "False"):
+        return ("ident", "false")
+    return v
+
+
+def std_custom_stmts(rng, sch, wrong=0):
+    """1..4 statements on standard options of the element (repeated ones preferred, several times) and 1..3 custom ones,
+    standard first / custom first / interleaved"""
+    f0 = sch.fields_of(0)
+    reps = [f for f in f0 if f.rep]
+    std = []
+    for _ in range(rng.range(1, 4)):
+        if not f0:
+            break
+        f = rng.choice(reps) if reps and rng.chance(2, 3) else rng.choice(f0)
+        parts = [("f", f.name)]
+        if f.is_msg() and not f.rep and rng.chance(1, 2):
+            sub = [g for g in sch.fields_of(f.kind[1]) if not g.is_msg()]
+            if sub:
+                f = rng.choice(sub)
+                parts.append(("f", f.name))
+        std.append((parts, plain(rand_value(rng, sch, f, 2, wrong))))
+    cus = []
+    for _ in range(rng.range(1, 3)):
+        for _try in range(20):
+            st = rand_stmt(rng, sch, wrong=wrong)
+            if st[0][0][0] == "x":
+                cus.append((st[0], plain(st[1])))
+                break
+    o = rng.below(3)
+    if o == 0:
+        return std + cus
+    if o == 1:
+        return cus + std
+    out = std + cus
+    rng.shuffle(out)
+    return out
+
+
 def _type_name(sch, k):
     if isinstance(k, tuple):
         return (sch.msgs if k[0] == "msg" else sch.enums)[k[1]]["name"]
